@@ -14,9 +14,53 @@ fn inst_evaluate(input: &Tree) -> Result<Tree, String> {
     })
 }
 
+fn d_strmap_pub(t: &Tree) -> Result<std::collections::HashMap<String, String>, String> {
+    let mut m = std::collections::HashMap::new();
+    for e in t.as_list()? {
+        let p = e.as_list()?;
+        m.insert(p[0].as_str()?.to_string(), p[1].as_str()?.to_string());
+    }
+    Ok(m)
+}
+
+fn eval_tree(ins: &ommx::v1::Instance, st: &ommx::v1::State) -> Tree {
+    match ins.evaluate(st) {
+        Ok((sol, _)) => ok(e_solution(&sol)),
+        Err(e) => err("evaluate", &format!("{e:#}")),
+    }
+}
+
+/// relax_history: [instance, [op..], state] with op = ["relax", id, reason, [[k,v]..]] | ["restore", id]
+/// -> ok [[result, instance after the op, evaluation at state]..]
+fn relax_history(input: &Tree) -> Result<Tree, String> {
+    let xs = input.as_list()?;
+    let mut ins = d_instance(&xs[0])?;
+    let st = d_state(&xs[2])?;
+    let mut out = vec![L(vec![a("start"), e_instance(&ins), eval_tree(&ins, &st)])];
+    for o in xs[1].as_list()? {
+        let p = o.as_list()?;
+        let r = match p[0].as_str()? {
+            "relax" => ins.relax_constraint(
+                p[1].as_u64()?,
+                p[2].as_str()?.to_string(),
+                d_strmap_pub(&p[3])?,
+            ),
+            "restore" => ins.restore_constraint(p[1].as_u64()?),
+            k => return Err(format!("relax_history: op {k}")),
+        };
+        let rt = match r {
+            Ok(()) => a("ok"),
+            Err(_) => a("err"),
+        };
+        out.push(L(vec![rt, e_instance(&ins), eval_tree(&ins, &st)]));
+    }
+    Ok(ok(L(out)))
+}
+
 pub fn dispatch(op: &str, input: &Tree) -> Option<Result<Tree, String>> {
     match op {
         "inst_evaluate" => Some(inst_evaluate(input)),
+        "relax_history" => Some(relax_history(input)),
         _ => None,
     }
 }
